@@ -8,6 +8,17 @@ HERE = os.path.dirname(os.path.dirname(os.path.abspath(__file__)))
 
 # pid -> (category, technique, level text, level note, design ref)
 CHECKS = {
+    "C17": (
+        "exploration",
+        "Hypothesis + enumerated hostile corpus: adversarial / malformed LLM answers (and mutations of well-formed ones) placed at every LLM call position of multi-turn conversations in nine pipeline modes (Colang 1.0 three-step, single-call, multi-step, passthrough, general, with shipped rails; Colang 2.x llm continuation, value generation, passthrough); oracle = generate returns a well-formed message, never raises or hangs, planted template/variable syntax is returned literally and the planted secret never appears",
+        "About 190 hostile answer classes, 20 template payloads wrapped in the format of the task at that position, and generated mutations of the well-formed answer are "
+        "returned by the scripted LLM at each call position (reach is measured from the LLM call log); generate must return {'role': 'assistant'|'exception', ...}, never raise, "
+        "never hang (confirmed watchdog), a following benign turn must complete too, and where planted `{{ 7*7 }}` / `$secret_var` / `{$secret_var}` syntax is returned at a message-text "
+        "position the reply must contain it literally and neither the evaluated value nor the planted secret. Violations are bucketed by exception type + innermost nemoguardrails frame. "
+        "Four findings are listed open (multi-step mode: C17-F7c/d/e; v2 brace interpolation: C17-F7g) and classified by precise signatures so that the search continues past them.",
+        "The fixed internal-error reply and empty v2 replies are well-formed outcomes (counted, not violations); a `$var` in a generated bot INTENT is resolved by design and is not a message-text position.",
+        "DESIGN.md 4/C17",
+    ),
     "C15": (
         "exploration",
         "Hypothesis: generated sets of adversarially related conversations x sequential interleavings on one shared LLMRails instance, and concurrent generate_async tasks with generated latencies/offsets on a virtual-time loop; differential oracle against isolated replay on fresh instances + parameter invariant at quiescence",
